@@ -54,3 +54,18 @@ Example C02_rejects_overlap :
   gen_check (FCanon 1) 3 0 4 [ [[(0,0);(10,0);(10,10);(0,10)]; [(2,2);(8,2);(8,8);(2,8)]]%Z ]
             [[(0,0);(10,0);(10,10);(0,10)]; [(2,2);(8,2);(8,8);(2,8)]]%Z [] [0; 2; 8; 10]%Q = false.
 Proof. vm_compute. reflexivity. Qed.
+
+(* K3, second batch (Gen/Kernels2_gen.v, regenerated from engine.go on every run): the "very small triangle"
+   filter drops a three-vertex ring only when two of its vertices are within one unit in BOTH coordinates *)
+From Clip Require Import Gen.Kernels2_gen Model.Kernel2Proofs.
+Theorem C02_ptsReallyClose_from_source : forall x1 y1 x2 y2,
+  (Z.abs x1 < 2 ^ 62 -> Z.abs y1 < 2 ^ 62 -> Z.abs x2 < 2 ^ 62 -> Z.abs y2 < 2 ^ 62 ->
+  (gen_ptsReallyClose x1 y1 x2 y2 = true <-> (Z.abs (x1 - x2) < 2 /\ Z.abs (y1 - y2) < 2)))%Z.
+Proof. exact ptsReallyClose_spec. Qed.
+Theorem C02_pointsEqual_from_source : forall x1 y1 x2 y2,
+  gen_pointsEqual x1 y1 x2 y2 = true <-> (x1, y1) = (x2, y2).
+Proof. exact pointsEqual_spec. Qed.
+Example C02_ptsReallyClose_example :
+  gen_ptsReallyClose 5 5 6 4 = true /\ gen_ptsReallyClose 5 5 5 7 = false /\ gen_ptsReallyClose 5 5 7 5 = false.
+Proof. vm_compute. repeat split; reflexivity. Qed.
+Print Assumptions C02_ptsReallyClose_from_source.
